@@ -32,6 +32,15 @@ NOGRU = [f for f in SPECS if f != 'gru']
 
 
 def gen_case(rng, cfg, idx):
+    if idx % 40 == 7:
+        shp = B.rand_shape(rng, 3, 3, 1)
+        vals = lambda: B.rand_values(rng, shp).ravel().tolist()
+        kind = rng.choice(["array", "tensor"])
+        prog = [{"k": "leaf", "out": "x1", "kind": "tensor", "dtype": "float64", "shape": list(shp), "data": vals(), "constant": None, "layout": "C"},
+                {"k": "leaf", "out": "__g", "kind": kind, "dtype": "float64", "shape": list(shp), "data": vals(), "constant": rng.choice([True, None]) if kind == "tensor" else None, "layout": "C"},
+                {"k": "call", "out": "v2", "fn": "getitem", "a": [["r", "x1"], ["e"]], "sp": "mg"},
+                {"k": "backward", "tgt": "x1", "seed": ["r", "__g"]}]
+        return {"kind": "leafseed", "prog": prog, "L": "x1"}
     r = idx % 3
     if r == 0:
         for _ in range(20):
